@@ -18,6 +18,8 @@
   * ignore_mode_fires_no_end_or_error_hook
   * messages_handled_in_arrival_order, handled_is_prefix_of_arrivals, ignore_mode_relays_in_arrival_order:
     the pause queue never reorders (with and without a flow)
+  * open_connection_reply_truthy_iff_failed, empty_reply_is_taken_as_success, failed_connect_ends_flow_with_error:
+    the `None` / `""` / message boundary of OpenConnectionCompleted.reply
   * round 3: `Input.hookKill` (flow.kill() inside any hook) is part of every schedule; *_any_sockets variants hold when
     write_eof raises OSError (initX); kill_in_message_hook_still_relays, kill_is_plain_completion
 -/
@@ -443,6 +445,37 @@ example : sentMsgs (run (init .tcp false false) [.start, .data .client [1], .dat
 example : hookMsgs (run (init .tcp true true) [.start, .hookDone none, .data .client [0], .data .server [1],
     .data .server [2], .data .server [3], .hookDone none, .hookDone none, .hookDone none, .hookDone none]).trace =
     [⟨true, [0]⟩, ⟨false, [1]⟩, ⟨false, [2]⟩, ⟨false, [3]⟩] := by decide
+
+/-! ### the reply of `OpenConnection`: `None` / `""` / message -/
+
+/-- **A failed connection attempt is always reported as one.**  Whatever the exception (also one whose `str()` is
+    empty: a bare `TimeoutError()`, `OSError()`, `ConnectionError()`, or a cancellation), the reply `open_connection`
+    completes the command with is truthy for the layers' `if err:`; a successful attempt yields `None`. -/
+theorem open_connection_reply_truthy_iff_failed (o : ConnectOutcome) :
+    truthy (openConnectionReply o) = (o != .ok) := by
+  cases o with
+  | ok => rfl
+  | cancelled => decide
+  | oserror msg =>
+    cases msg with
+    | nil => decide
+    | cons b t => rfl
+
+/-- the boundary this rests on: to the layers an EMPTY error string is the same input as `None` (success) — which is
+    why `open_connection` must never produce it for a failure -/
+theorem empty_reply_is_taken_as_success : replyInput (some []) = replyInput none := rfl
+
+/-- end to end: a layer waiting for its `OpenConnection`, completed by `open_connection` after ANY failure, fires the
+    error hook at once (and, by `at_most_one_end_or_error` / `nothing_relayed_after_end`, never ends normally or relays) -/
+theorem failed_connect_ends_flow_with_error (st : State) (o : ConnectOutcome) (ho : o ≠ .ok)
+    (hph : st.phase ≠ .idle) (hp : st.pending = .connect) (hf : st.flow = true) :
+    (step st (replyInput (openConnectionReply o))).trace = st.trace ++ [.hook .error] ∧
+    (step st (replyInput (openConnectionReply o))).pending = .errorHook := by
+  have ht : truthy (openConnectionReply o) = true := by
+    rw [open_connection_reply_truthy_iff_failed]; cases o <;> simp_all
+  unfold replyInput
+  rw [ht]
+  exact connect_failure_fires_error st hph hp hf
 
 /-! ### the hypotheses are satisfiable and the model is not constant -/
 
